@@ -184,6 +184,7 @@ struct Dispatcher::Data {
             MUSTACHE_VERIF_SCHED(5, thread_id.toInt(), verifQueueNumber(queue), 0u);
 #endif
         }
+        MUSTACHE_VERIF_SCHED(7, thread_id.toInt(), 0u, terminate ? 1u : 0u);
     }
 
     void wait(JobQueue& queue) {
